@@ -40,11 +40,25 @@ def gen_frame(rng):
     return {'nrows': n, 'cols': cols}
 
 
-def mutate(rng, fr):
+def mutate(rng, fr, prec=None):
     """one mutation of a copy; returns (frame, kind, detail)"""
     g = copy.deepcopy(fr)
-    kinds = ['none', 'value', 'value-small', 'name', 'dtype', 'position', 'rows', 'extra', 'drop']
+    kinds = ['none', 'value', 'value-small', 'value-within', 'value-beyond', 'name', 'dtype', 'position', 'rows',
+             'extra', 'drop']
     kind = rng.choice(kinds)
+    if kind in ('value-within', 'value-beyond'):
+        # the reference cell is put on the grid of the precision, the actual one 0.2 / 0.7 grid steps above it
+        p = 6 if prec is None else prec
+        cands = [(ci, ri) for ci, c in enumerate(g['cols']) if c['fam'] in ('float64', 'Float64')
+                 for ri, v in enumerate(c['cells']) if v is not None]
+        if not cands:
+            return g, 'none', None
+        ci, ri = rng.choice(cands)
+        k = rng.randint(-50, 50)
+        base = k / 10 ** p
+        fr['cols'][ci]['cells'][ri] = base
+        g['cols'][ci]['cells'][ri] = base + (0.2 if kind == 'value-within' else 0.7) / 10 ** p
+        return g, kind, (g['cols'][ci]['name'], ri)
     if kind == 'none':
         return g, kind, None
     if kind in ('value', 'value-small'):
@@ -147,11 +161,14 @@ class C05(core.Prop):
 
     def gen_case(self, rng, i):
         ref = gen_frame(rng)
-        act, kind, detail = mutate(rng, ref)
+        precision = rng.choice([None, None, 0, 0, 1, 2, 6, 10])
+        act, kind, detail = mutate(rng, ref, precision)
 
         def flag():
             r = rng.random()
             names = [c['name'] for c in ref['cols']]
+            if rng.random() < 0.1:
+                names = sorted(set(names) | {c['name'] for c in act['cols']})
             if r < 0.55:
                 return None
             if r < 0.65:
@@ -163,7 +180,7 @@ class C05(core.Prop):
                 'check_data': flag(), 'check_types': flag(), 'check_order': flag(), 'check_extra_cols': flag(),
                 'sortby': rng.choice([None, None, None, [ref['cols'][0]['name']]]),
                 'condition': rng.choice([None, None, None, 'first-col-notnull']),
-                'precision': rng.choice([None, None, 0, 2, 6, 10]),
+                'precision': precision,
                 'type_matching': rng.choice(LEVELS),
                 'entry': rng.choice(['memory', 'memory', 'parquet', 'csv'])}
 
@@ -197,16 +214,108 @@ class C05(core.Prop):
         if case['kind'] == 'types':
             return [{'op': 'c05.types_match', 'a': case['a'], 'b': case['b'], 'level': case['level']},
                     {'op': 'c05.loosen', 't': case['a']}]
-        return []
+        obs = self._observe(case)
+        if obs is None:
+            return []
+        base = {'act': obs['act_cols'], 'ref': obs['ref_cols'],
+                'check_types': self._mflag(case['check_types'], obs['rn']),
+                'check_extra_cols': self._mflag(case['check_extra_cols'], obs['an']),
+                'check_order_false': case['check_order'] is False,
+                'check_order': self._mflag(case['check_order'], obs['rn']),
+                'level': case['type_matching']}
+        ops = [dict(base, op='c05.structure')]
+        if obs['diffcols'] is not None:
+            ops.append(dict(base, op='c05.check', check_data=self._mflag(case['check_data'], obs['rn']),
+                            nact=case['act']['nrows'], nref=case['ref']['nrows'], diffcols=obs['diffcols']))
+        return ops
+
+    def _mflag(self, f, names):
+        """a flag as the model takes it: null = all columns of the frame it is resolved against"""
+        if f is None:
+            return None
+        return self._resolved(f, names)
+
+    def _observe(self, case):
+        """run PandasComparison.check_dataframe with the reporters spied on; cached on the case"""
+        key = json.dumps(case, sort_keys=True, default=str)
+        if getattr(self, '_obs_key', None) == key:
+            return self._obs
+        self._obs_key, self._obs = key, None
+        try:
+            ref_df, act_df = cx.to_df(case['ref']), cx.to_df(case['act'])
+        except Exception:
+            return None
+        seen = {'missing': [], 'extra': [], 'wrong_types': [], 'wrong_ordering': False}
+
+        class Spy(PandasComparison):
+            def missing_columns_detected(self, diffs, missing_cols, ref_df):
+                seen['missing'] = sorted(missing_cols)
+                return PandasComparison.missing_columns_detected(self, diffs, missing_cols, ref_df)
+
+            def extra_columns_found(self, diffs, extra_cols, df):
+                seen['extra'] = sorted(extra_cols)
+                return PandasComparison.extra_columns_found(self, diffs, extra_cols, df)
+
+            def field_types_differ(self, diffs, c, dtype, ref_dtype):
+                seen['wrong_types'].append(c)
+                return PandasComparison.field_types_differ(self, diffs, c, dtype, ref_dtype)
+
+            def different_column_orders(self, diffs, df, ref_df):
+                seen['wrong_ordering'] = True
+                return PandasComparison.different_column_orders(self, diffs, df, ref_df)
+        obs = {'rn': list(ref_df), 'an': list(act_df),
+               'ref_cols': [[c, str(ref_df[c].dtype)] for c in ref_df], 'act_cols': [[c, str(act_df[c].dtype)] for c in act_df]}
+        try:
+            with quiet():
+                res = Spy(verbose=False).check_dataframe(
+                    act_df.copy(), ref_df.copy(), check_data=self._flag(case['check_data'], None),
+                    check_types=self._flag(case['check_types'], None), check_order=self._flag(case['check_order'], None),
+                    check_extra_cols=self._flag(case['check_extra_cols'], None), precision=case['precision'],
+                    type_matching=case['type_matching'], create_temporaries=False)
+            obs['impl'] = {'missing': seen['missing'], 'extra': seen['extra'], 'wrong_types': sorted(seen['wrong_types']),
+                           'wrong_ordering': seen['wrong_ordering'],
+                           'same': not (seen['missing'] or seen['extra'] or seen['wrong_types'] or seen['wrong_ordering'])}
+            obs['passed'] = res.failures == 0
+        except Exception as e:   # noqa
+            obs['impl'] = {'exc': type(e).__name__}
+            obs['passed'] = None
+        # which columns hold a differing cell (the statement's value rule, cell by cell) - only when rows pair up
+        obs['diffcols'] = None
+        if case['act']['nrows'] == case['ref']['nrows']:
+            prec = 6 if case['precision'] is None else case['precision']
+            rcol = {c['name']: c for c in case['ref']['cols']}
+            diff = []
+            for c in case['act']['cols']:
+                if c['name'] in rcol and not all(cells_equal(x, y, prec) for x, y in zip(c['cells'], rcol[c['name']]['cells'])):
+                    diff.append(c['name'])
+            obs['diffcols'] = diff
+        elif True:
+            obs['diffcols'] = []
+        self._obs = obs
+        return obs
 
     def impl_outputs(self, case):
         class T:
             def __init__(self, n):
                 self.name = n
-        return [bool(types_match(T(case['a']), T(case['b']), case['level'])), loosen_type(case['a'])]
+        if case['kind'] == 'types':
+            return [bool(types_match(T(case['a']), T(case['b']), case['level'])), loosen_type(case['a'])]
+        obs = self._observe(case)
+        if obs is None:
+            return []
+        if 'exc' in obs['impl']:
+            return [obs['impl'], obs['impl']]
+        return [obs['impl'], obs['passed']]
 
     def canon_model(self, case, outs):
-        return [o['ok'] if 'ok' in o else {'exc': o.get('exc')} for o in outs]
+        res = []
+        for o in outs:
+            v = o['ok'] if 'ok' in o else {'exc': o.get('exc')}
+            if isinstance(v, dict) and 'missing' in v:
+                v = {'missing': sorted(v['missing']), 'extra': sorted(v['extra']), 'wrong_types': sorted(v['wrong_types']),
+                     'wrong_ordering': v['wrong_ordering'], 'same': v['same']}
+            res.append(v)
+        return res
 
     # ---------------------------------------------------------------
     def oracle(self, case):
